@@ -228,10 +228,16 @@ class Module(AuxDataContainer):
         self.file_format = file_format
         self.name = name
         self.preferred_addr = preferred_addr
-        self.proxies = Module._NodeSet(self, "proxies", proxies)
+        # The collections are assigned before they are filled: adding a child
+        # that the iterable lists a second time looks the collection up
+        # through the child's new parent.
+        self.proxies = Module._NodeSet(self, "proxies")
+        self.proxies.update(proxies)
         self.rebase_delta = rebase_delta
-        self.sections = Module._NodeSet(self, "sections", sections)
-        self.symbols = Module._NodeSet(self, "symbols", symbols)
+        self.sections = Module._NodeSet(self, "sections")
+        self.sections.update(sections)
+        self.symbols = Module._NodeSet(self, "symbols")
+        self.symbols.update(symbols)
         self.entry_point = entry_point
         # Initialize the aux data last so that the cache is populated
         super().__init__(aux_data, uuid)
